@@ -143,6 +143,21 @@ func judgeCrashImage(c *core.Case, img crashImage, name string, before, after mo
 		d[k] = v
 	}
 	fpfx := "C05/" + labelClass(img.Label) + "/"
+	// What would SQLite's own hot-journal playback make of this crash image? (Only
+	// consulted if LiteFS's result differs: a state in which SQLite's rules restore
+	// neither the image before nor the one after - a stale later segment of a
+	// persistent journal right behind an unsynced header, see C17 - is not judged
+	// for bytes.)
+	sqliteRestores := true
+	{
+		dbDir := filepath.Join(img.Dir, "dbs", name)
+		if wb, ok := led.get(name, before); ok && wb != nil {
+			sqliteRestores = sqlitePlaybackRestores(dbDir, ps, wb)
+		}
+		if wa, ok := led.get(name, after); ok && wa != nil && !sqliteRestores {
+			sqliteRestores = sqlitePlaybackRestores(dbDir, ps, wa)
+		}
+	}
 	n, err := drv.NewNode(drv.Config{Dir: img.Dir, Candidate: true, Leaser: litefs.NewStaticLeaser(true, "localhost", "http://127.0.0.1:1")})
 	c.Count("images_judged", 1)
 	if err != nil {
@@ -209,7 +224,10 @@ func judgeCrashImage(c *core.Case, img crashImage, name string, before, after mo
 		}
 	}
 	got := mon.RawImage(mon.DBDir(n, name))
-	if dd := got.Diff(want); dd != "" {
+	if dd := got.Diff(want); dd != "" && !sqliteRestores {
+		c.Count("crash_images_sqlite_rules_would_not_restore_either", 1)
+		return ""
+	} else if dd != "" {
 		c.Violate(fpfx+"image-mismatch", fmt.Sprintf("after a crash before %q the database recovered to position %s (%s) but its image differs: %s", img.Label, pos, side, dd), d)
 		return ""
 	}
